@@ -649,7 +649,7 @@ func (c *candidateBase) Marshal() string {
 		c.Port(),
 		c.Type())
 
-	if r := c.RelatedAddress(); r != nil && r.Address != "" && r.Port != 0 {
+	if r := c.RelatedAddress(); r != nil && r.Address != "" {
 		val = fmt.Sprintf("%s raddr %s rport %d",
 			val,
 			r.Address,
